@@ -15,6 +15,7 @@ from __future__ import annotations
 
 import copy
 import random
+import dataclasses
 from dataclasses import dataclass, field
 
 ALPHA = "abcxy "
@@ -943,7 +944,11 @@ def v_union(g: Gen, left: TV):
     g.register(tvr)
     tv = g.derive(left)
     vis = set(left.vis_cids())
-    tv.scope = {c: i for c, i in left.scope.items() if c in vis}
+    # the columns of a union are ordinary columns of a new relation (the right side may hold other values in a
+    # column that is constant on the left): they may serve as keys again
+    tv.scope = {c: dataclasses.replace(i, const=False, kind="ewise", unique=False,
+                                       nullable=i.nullable or tvr.scope[dict(tvr.visible)[n]].nullable)
+                for n, c in left.visible for i in [left.scope[c]]}
     tv.sources = left.sources | tvr.sources
     tv.keys = []
     tv.order_total = False
@@ -966,7 +971,7 @@ PROFILES = {
     "join": dict(mutate=3, filter=3, select=2, rename=2, arrange=1, join=6, alias=2, union=2, mutate_window=1, summarize=1, group_by=1),
     "tall": dict(mutate=5, mutate_window=2, filter=3, select=1, rename=1, arrange=2, slice=1, group_by=2, summarize=2, alias=1, join=1),
     "slices": dict(arrange=3, slice=7, filter=2, mutate=2, select=1, rename=1),
-    "union": dict(mutate=3, filter=3, select=2, drop=1, rename=2, arrange=1, slice=1, union=6, alias=1),
+    "union": dict(mutate=3, filter=3, select=2, drop=1, rename=2, arrange=1, slice=1, union=6, alias=1, group_by=2, summarize=3, mutate_window=1),
     "subquery": dict(mutate=2, mutate_window=4, filter=4, arrange=2, slice=4, group_by=3, summarize=4, alias=4, join=2, union=1, ungroup=1),
 }
 
@@ -1196,6 +1201,73 @@ def _scenario(seed: int, kind: str):
         f = g.fresh_t()
         S(id=f, op="arrange", src=m, by=[{"col": [a.tid, "id"]}])
         S(id="x1", op="export", src=f, target="polars", ordered=True)
+    elif kind == "scen_rename_hidden":
+        # labels are not unique below the surface: a hidden column keeps its label.  A visible column takes over the
+        # name of a hidden one that sits later (or earlier) in the table and is then renamed / overwritten / used again
+        cols = [("a", "int"), ("b", "int"), ("c", "string"), ("d", "int")]
+        a = table("src0", cols)
+        names = [n for n, _ in cols]
+        i1, i2 = sorted(r.sample(range(len(names)), 2))
+        first, later = names[i1], names[i2]
+        if r.random() < 0.3:
+            first, later = later, first
+        t1, t2, t3 = g.fresh_t(), g.fresh_t(), g.fresh_t()
+        if r.random() < 0.5:
+            S(id=t1, op="drop", src=a.tid, cols=[{"col": [a.tid, later]}])
+        else:
+            S(id=t1, op="select", src=a.tid, cols=[{"col": [a.tid, n]} for n in ["id"] + names if n != later])
+        S(id=t2, op="rename", src=t1, map=[[first, later]])
+        step = r.choice(["rename", "rename", "mutate_new", "mutate_over", "filter"])
+        if step == "rename":
+            S(id=t3, op="rename", src=t2, map=[[later, "key"]])
+        elif step == "mutate_new":
+            S(id=t3, op="mutate", src=t2, cols=[["seen", {"c": later}], ["orig", {"col": [a.tid, first]}]])
+        elif step == "mutate_over":
+            S(id=t3, op="mutate", src=t2, cols=[[later, {"fn": "add", "args": [{"col": [a.tid, "id"]}, {"lit": 100}]}]])
+        else:
+            S(id=t3, op="filter", src=t2, preds=[{"fn": "is_not_null", "args": [{"c": later}]}])
+        last = t3
+        if r.random() < 0.5:
+            last = g.fresh_t()
+            S(id=last, op="mutate", src=t3, cols=[["hid", {"col": [a.tid, later]}]])
+        f = g.fresh_t()
+        S(id=f, op="arrange", src=last, by=[{"col": [a.tid, "id"]}])
+        S(id="x1", op="export", src=f, target="polars", ordered=True)
+    elif kind == "scen_union_const":
+        # a column that is constant (or an aggregate) on the left side of a union and an ordinary column on the right:
+        # after the union it is an ordinary column (D73) - group by it, filter on it, compute with it
+        a = table("src0", [("a", "int"), ("b", "int")])
+        b = table("src1", [("a", "int"), ("b", "int")])
+        l1, r1, u = g.fresh_t(), g.fresh_t(), g.fresh_t()
+        variant = r.choice(["const", "const", "agg"])
+        if variant == "const":
+            S(id=l1, op="mutate", src=a.tid, cols=[["k", {"lit": r.choice([1, 2, 7])}]])
+            S(id=r1, op="mutate", src=b.tid, cols=[["k", {"col": [b.tid, "b"]}]])
+            lsel, rsel = ["k", "a"], ["k", "a"]
+        else:
+            g1 = g.fresh_t()
+            S(id=g1, op="group_by", src=a.tid, cols=[{"col": [a.tid, "b"]}])
+            S(id=l1, op="summarize", src=g1, cols=[["k", {"fn": "max", "args": [{"col": [a.tid, "a"]}]}]])
+            S(id=r1, op="mutate", src=b.tid, cols=[["k", {"col": [b.tid, "a"]}]])
+            lsel, rsel = ["b", "k"], ["b", "k"]
+        l2, r2 = g.fresh_t(), g.fresh_t()
+        if r.random() < 0.5:
+            rsel = list(reversed(rsel))
+        S(id=l2, op="select", src=l1, cols=lsel)
+        S(id=r2, op="select", src=r1, cols=rsel)
+        S(id=u, op="union", src=l2, right=r2, distinct=r.random() < 0.3)
+        after = r.choice(["group", "group", "filter", "mutate"])
+        last = g.fresh_t()
+        other = "a" if variant == "const" else "b"
+        if after == "group":
+            gb = g.fresh_t()
+            S(id=gb, op="group_by", src=u, cols=[{"c": "k"}])
+            S(id=last, op="summarize", src=gb, cols=[["s", {"fn": "sum", "args": [{"c": other}]}], ["n", {"fn": "count_star", "args": []}]])
+        elif after == "filter":
+            S(id=last, op="filter", src=u, preds=[{"fn": "greater_than", "args": [{"c": "k"}, {"lit": 1}]}])
+        else:
+            S(id=last, op="mutate", src=u, cols=[["w", {"fn": "sum", "args": [{"c": other}], "partition_by": [{"c": "k"}]}]])
+        S(id="x1", op="export", src=last, target="polars", ordered=False)
     elif kind == "scen_selfjoin_agg":
         # "join the aggregate back": a table joined with a summary of itself (through alias()); verbs after
         # the join use columns of the origin that the summary dropped
